@@ -102,6 +102,18 @@ def c05_case(sw, ch, rate, W, aw, flags, tail, tail_flag, mn, mx, ms, mode, as_r
     data = coded(flags, W, sw, ch, tail, tail_flag)
     bps = sw * ch
     allflags = list(flags) + ([tail_flag] if tail else [])
+    extra_kw = {}
+    if as_region == 7:
+        # max_read ending inside a window: the input is its first round(t*rate) samples, nothing beyond is read or reported
+        total = len(data) // bps
+        cutoff = total - max(1, W // 2)
+        t = cutoff / rate
+        if cutoff < 1 or round(t * rate) != cutoff:
+            as_region = 0
+        else:
+            extra_kw = {"max_read": t}
+            data_full, data = data, data[: cutoff * bps]
+            allflags = allflags[: (cutoff + W - 1) // W]
     exp = tm.segment(allflags, mn, mx, ms, mode)
     kw = dict(min_dur=float(mn * Fraction(aw)), max_dur=float(mx * Fraction(aw)), max_silence=float(ms * Fraction(aw)),
               drop_trailing_silence=bool(mode & 4), strict_min_dur=bool(mode & 2), analysis_window=float(aw),
@@ -110,6 +122,9 @@ def c05_case(sw, ch, rate, W, aw, flags, tail, tail_flag, mn, mx, ms, mode, as_r
         if as_region == 2:
             # a region that itself carries a start time (e.g. one yielded by an earlier split)
             regs = list(L["core"].split(L["AR"](data, rate, sw, ch, 2.5), **kw))
+        elif as_region == 6:
+            # ... split again with its own method (two-pass segmentation): times count from the beginning of THAT input
+            regs = list(L["AR"](data, rate, sw, ch, 2.5).split(**kw))
         elif as_region in (3, 4, 5):
             # standard input: everything available at once, or trickling in pieces that ignore window boundaries
             # (5: through a real pipe, i.e. a stdin that has a file descriptor)
@@ -122,6 +137,8 @@ def c05_case(sw, ch, rate, W, aw, flags, tail, tail_flag, mn, mx, ms, mode, as_r
                 if as_region == 5:
                     sys.stdin.close()
                 sys.stdin = old
+        elif as_region == 7:
+            regs = list(L["core"].split(data_full, sr=rate, sw=sw, ch=ch, **kw, **extra_kw))
         elif as_region:
             regs = list(L["AR"](data, rate, sw, ch).split(**kw))
         else:
@@ -168,7 +185,7 @@ def c05_work(task):
                     if tail and (i + stripe) % 3:
                         continue  # partial last windows: every third tuple (all tuples get every tail over the patterns)
                     cov["evaluations"] += 1
-                    how = 5 if i % 40 == 7 else i % 5
+                    how = 5 if i % 40 == 7 else (6 if i % 10 == 6 else (7 if i % 10 == 3 else i % 5))
                     msg = c05_case(sw, ch, rate, W, aw, flags, tail, tf, mn, mx, ms, mode, as_region=how)
                     if any(flags) or tf:
                         cov["distinct_nontrivial"] += 1
@@ -643,6 +660,41 @@ def split_laziness(rep, L):
                                   "windows of %d samples, tail %d: end of stream requested %d times, %d of %d samples pulled" % (
                                       W_, tail, src.nones, src.samples, len(data) // 2),
                                   {"kind": "lazy", "tuple": [1, 2, 0, 0], "flags": tm.show(flags)})
+    # a raw file read lazily (large_file=True) that is still being written: what is appended after the first region was
+    # yielded is part of the stream - the file was not swallowed whole at open time, however small it is
+    d_ = common.scratch_dir()
+    for na, nb in ((4, 3), (6, 1), (3, 5)):
+        for lazy_kw in (dict(large_file=True), dict(large_file=True, max_read=60.0)):
+            rep.add("evaluations")
+            rep.add("distinct_nontrivial")
+            first = coded([True] + [False] * (na - 1), 2, 2, 1)
+            second_flags = [True] * nb + [False]
+            whole = coded([True] + [False] * (na - 1) + second_flags, 2, 2, 1)
+            path = os.path.join(d_, "growing_%d.raw" % os.getpid())
+            with open(path, "wb") as fp:
+                fp.write(first)
+            kw = dict(sr=20, sw=2, ch=1, analysis_window=0.1, min_dur=0.1, max_dur=1.0, max_silence=0, energy_threshold=50, **lazy_kw)
+            try:
+                gen = lib_["core"].split(path, **kw)
+                r1 = next(gen)
+                with open(path, "ab") as fp:
+                    fp.write(whole[len(first):])
+                rest = list(gen)
+                got = [(round(r.start * 20), r.data) for r in [r1] + rest]
+                want = [(0, whole[:4]), (na * 2, whole[na * 4 : (na + nb) * 4])]
+                msg = None if got == want else "regions at samples %r, expected %r" % ([(s_, len(x)) for s_, x in got], [(s_, len(x)) for s_, x in want])
+            except Exception as exc:
+                msg = "raised %r" % (exc,)
+            finally:
+                try:
+                    gen.close()
+                except Exception:
+                    pass
+                os.unlink(path)
+            if msg:
+                rep.violation("split-lazy growing file first=%d second=%d %s" % (na, nb, sorted(lazy_kw)),
+                              "raw file of %d windows read with large_file=True, %d more windows appended after the first region was yielded: %s" % (na, nb + 1, msg),
+                              {"kind": "lazy", "tuple": [1, 10, 0, 0], "flags": "A"})
     W = 2
     from .chk_reader import blocks_of, consumed_after
     import sys as _sys
@@ -696,7 +748,7 @@ def split_laziness(rep, L):
             raise io.UnsupportedOperation("fileno")
 
     validator = lib_["util"].AudioEnergyValidator(50, 2, 1)
-    kinds = ("src", "reader", "hop", "hop_tail", "rec_hop_tail", "stdin")
+    kinds = ("src", "reader", "rec_reader", "hop", "hop_tail", "rec_hop_tail", "stdin")
     rep.cov["laziness_inputs"] = list(kinds)
     for (mn, mx, ms, mode) in [(1, 1, 0, 0), (1, 3, 0, 0), (2, 3, 1, 0), (1, 3, 2, 0), (2, 4, 1, 4), (1, 2, 1, 2), (3, 3, 0, 6),
                                (2, 5, 3, 4), (1, 4, 3, 0), (2, 2, 1, 0), (1, 5, 0, 4), (3, 5, 2, 2)]:
@@ -727,8 +779,8 @@ def split_laziness(rep, L):
                         src = Counting(data, 20, 2, 1)
                         if kind == "src":
                             inp = src
-                        elif kind == "reader":
-                            inp = lib_["util"].AudioReader(src, block_dur=0.1)
+                        elif kind in ("reader", "rec_reader"):
+                            inp = lib_["util"].AudioReader(src, block_dur=0.1, record=(kind == "rec_reader"))
                         else:
                             inp = lib_["util"].AudioReader(src, block_dur=0.2, hop_dur=0.1, record=kind.startswith("rec"))
                         gen = lib_["core"].split(inp, analysis_window=0.1, **kw)
@@ -818,6 +870,10 @@ def c09_work(task):
     _sh.copyfile(wavf, wavU)
     _sh.copyfile(wavf, wavM)
     _sh.copyfile(rawf, rawU)
+    from .chk_sources import write_wav_chunky
+
+    wavX = os.path.join(d, "edited_x.wav")  # extra chunks before and after the audio, pad byte
+    write_wav_chunky(wavX, data, rate, sw, ch)
     ap = dict(sampling_rate=rate, sample_width=sw, channels=ch)
     eth = eth_for(sw)
     bps_ = sw * ch
@@ -848,6 +904,8 @@ def c09_work(task):
                     return core.split(wavf, large_file=True, **base_kw, **long_kw)
                 if kind in ("WAV", "WAV_lazy", "Wave"):
                     return core.split(wavM if kind == "Wave" else wavU, large_file=kind.endswith("lazy"), **base_kw, **long_kw)
+                if kind in ("wavx", "wavx_lazy"):
+                    return core.split(wavX, large_file=kind.endswith("lazy"), **base_kw, **long_kw)
                 if kind in ("RAW", "RAW_lazy"):
                     return core.split(rawU, large_file=kind.endswith("lazy"), **base_kw, **long_kw, **ap)
                 if kind == "raw":
@@ -882,7 +940,7 @@ def c09_work(task):
 
             for kind in ("bytes", "region", "region_fn", "wav", "wav_path", "wav_lazy", "raw", "raw_lazy", "raw_fmt",
                          "raw_audio_format", "buffer_source", "raw_source", "wave_source", "reader", "reader_wav", "stdin", "stdin:1", "stdin:3",
-                         "WAV", "WAV_lazy", "Wave", "RAW", "RAW_lazy", "stdin_fd:%d,3" % (W * sw * ch - 1),
+                         "WAV", "WAV_lazy", "Wave", "RAW", "RAW_lazy", "wavx", "wavx_lazy", "stdin_fd:%d,3" % (W * sw * ch - 1),
                          "stdin:%d,2" % (W * sw * ch - 1)):
                 cov["evaluations"] += 1
                 try:
@@ -1153,6 +1211,7 @@ def run(prop, tier):
         recs = [(2, 1, 10, 1, "AaAAaaA", 0), (1, 2, 20, 2, "aAAaA", 1), (4, 3, 30, 3, "AAaAa", 2), (2, 2, 16, 2, "AaaAAAAa", 0),
                 (1, 1, 8, 4, "AAaaAa", 3), (4, 1, 10, 1, "aAaAAAAA", 0),
                 (2, 1, 16000, 4, "AaAAaAAA", 2), (2, 2, 8000, 3, "AAAaAAaA", 0),  # sub-millisecond sample periods
+                (2, 1, 16000, 125, "AaAAaAAA", 2), (1, 1, 44100, 441 * 3 + 1, "AAaA", 7),  # windows that are no whole number of microseconds
                 (2, 2, 96000, 19200, "AaAA", 777), (1, 3, 65536, 32769, "AAa", 5),  # windows larger than 16384 / 32768 samples
                 (2, 1, 16000, 800, ("aaAAAaAAAAaa" * 9)[:100], 333)]  # > 64 KiB, window size not dividing 65536
         if not quick:
